@@ -280,25 +280,28 @@ class FacebookPhoto(FacebookParsedItem):
 
     @property
     def url(self):
+        if not self.group_id:
+            if self.parent_id:
+                return urljoin(
+                    BASE_FACEBOOK_URL,
+                    "/%s/photos/a.%s/%s" % (self.parent_id, self.album_id, self.id),
+                )
+
+            if self.parent_handle:
+                return urljoin(
+                    BASE_FACEBOOK_URL,
+                    "/%s/photos/a.%s/%s" % (self.parent_handle, self.album_id, self.id),
+                )
+
+        path = "/photo.php?fbid=%s" % self.id
+
         if self.group_id:
-            return urljoin(
-                BASE_FACEBOOK_URL,
-                "/photo.php?fbid=%s&set=g.%s" % (self.id, self.group_id),
-            )
+            path += "&set=g.%s" % self.group_id
 
-        if self.parent_id:
-            return urljoin(
-                BASE_FACEBOOK_URL,
-                "/%s/a.%s/%s" % (self.parent_id, self.album_id, self.id),
-            )
+        if self.album_id:
+            path += "&set=a.%s" % self.album_id
 
-        if self.parent_handle:
-            return urljoin(
-                BASE_FACEBOOK_URL,
-                "/%s/a.%s/%s" % (self.parent_handle, self.album_id, self.id),
-            )
-
-        return urljoin(BASE_FACEBOOK_URL, "/photo.php?fbid=%s" % self.id)
+        return urljoin(BASE_FACEBOOK_URL, path)
 
 
 def parse_facebook_url(url, allow_relative_urls=False):
